@@ -221,3 +221,101 @@ Example ex_blocked :
   holdsW 2%nat (nth 0%nat (cthr s) (TDone CBase Err)) = true /\
   nth 2%nat (cthr s) (TDone CBase Err) = TRun (CView [] [118]) [(LvV DEFAULT [118], PLock)].
 Proof. vm_compute. split; reflexivity. Qed.
+
+(* ------------------------------------------------------------------------------------------ *)
+(** Deadlock freedom and termination of the concurrent protocol.
+
+    Reading guide: [cstep fl c fs s t] = the step of thread [t] in state [s], [None] when the
+    thread has returned or is blocked on a mutex (RLock needs: no other thread holds the write
+    lock; Lock needs: no other thread holds the read or the write lock).  [all_done s] = every
+    thread has returned.  The statements hold for every flavour (also the pre-fix ones), every
+    file set, cached or not, every list of requests and every schedule. *)
+
+(** (1) In no reachable state are the unfinished threads all blocked. *)
+Theorem C19_no_deadlock : forall fl c fs qs sched,
+  let s := crun fl c fs sched (cinit fl qs) in
+  (forall t, cstep fl c fs s t = None) -> all_done s = true.
+Proof. exact no_deadlock. Qed.
+Print Assumptions C19_no_deadlock.
+
+(** The same under the writer preference of sync.RWMutex (a Lock() that waits for the readers to
+    leave blocks every new RLock()): whichever of the threads standing in front of Lock() are
+    counted as waiting writers ([pend], any set), some thread is still enabled.  [pend = none] is
+    the statement above, [pend = all] the most restrictive reading of the documentation. *)
+Theorem C19_no_deadlock_writer_pref : forall pend fl c fs qs sched,
+  let s := crun fl c fs sched (cinit fl qs) in
+  (forall t, cstep_wp pend fl c fs s t = None) -> all_done s = true.
+Proof. exact no_deadlock_wp. Qed.
+Print Assumptions C19_no_deadlock_writer_pref.
+
+(** No lock upgrade and no recursive locking: in every reachable state the mutex a thread is
+    about to RLock or Lock is held (for reading or writing) by no frame of that thread itself.
+    [cstep] tests the other threads only; this theorem is why that is the real enabledness. *)
+Theorem C19_no_lock_upgrade : forall fl c fs qs sched t th lk,
+  nth_error (cthr (crun fl c fs sched (cinit fl qs))) t = Some th ->
+  next_act th = ARLock lk \/ next_act th = ALock lk ->
+  holdsW lk th = false /\ holdsR lk th = false.
+Proof. exact no_upgrade. Qed.
+Print Assumptions C19_no_lock_upgrade.
+
+(** No livelock: whatever the schedule, at most 22 steps per request are ever taken (a request
+    is RLock, read, RUnlock, Lock, re-check, build, Unlock at each of at most three levels, plus
+    the hand-out).  Together with (1): every schedule that keeps choosing enabled threads ends,
+    after at most 22 * #requests steps, in a state where every request has returned. *)
+Theorem C19_bounded_steps : forall fl c fs qs sched,
+  (csteps fl c fs sched (cinit fl qs) <= 22 * length qs)%nat.
+Proof. exact bounded_steps. Qed.
+Print Assumptions C19_bounded_steps.
+
+(** (2) From every reachable state there is a continuation after which every request has
+    returned, and (for the unambiguous views key) thread t has returned the specified answer to
+    request t - the answer of the uncached provider, see [C19_answers_spec]. *)
+Theorem C19_can_finish : forall fl c fs qs sched,
+  exists sched', let s := crun fl c fs (sched ++ sched') (cinit fl qs) in
+    all_done s = true /\
+    (inj_key fl = true -> forall t q, nth_error qs t = Some q ->
+       exists r, nth_error (cthr s) t = Some (TDone q r) /\ obs_of (cp s) r = creq_spec fs q).
+Proof. exact can_finish. Qed.
+Print Assumptions C19_can_finish.
+
+(** ... and the continuation can be chosen among the steps that are enabled under writer
+    preference with any set [pend] of waiting writers ([crun_wp] skips what [cstep_wp] refuses;
+    it arrives at the same state as the plain run). *)
+Theorem C19_can_finish_writer_pref : forall pend fl c fs qs sched,
+  exists sched',
+    all_done (crun fl c fs (sched ++ sched') (cinit fl qs)) = true /\
+    crun_wp pend fl c fs sched' (crun fl c fs sched (cinit fl qs))
+      = crun fl c fs (sched ++ sched') (cinit fl qs).
+Proof. exact can_finish_wp. Qed.
+Print Assumptions C19_can_finish_writer_pref.
+
+(** Non-vacuity.  In the state of [ex_blocked] thread 2 is blocked (thread 0 holds the views
+    lock), threads 0 and 1 are enabled, index 3 is no thread; 7 of the at most 66 steps are
+    taken. *)
+Definition is_some {A} (o : option A) : bool := match o with Some _ => true | None => false end.
+Example ex_blocked_enabled :
+  let sched := [2;2;2;0;0;0;0;2;2;2;2]%nat in
+  let s := crun html_now true fsW sched (cinit html_now qsC) in
+  map (fun t => is_some (cstep html_now true fsW s t)) [0;1;2;3]%nat = [true; true; false; false] /\
+  all_done s = false /\
+  csteps html_now true fsW sched (cinit html_now qsC) = 7%nat /\
+  total_msr (cthr (cinit html_now qsC)) = 59%nat /\ total_msr (cthr s) = 52%nat.
+Proof. vm_compute. repeat split; reflexivity. Qed.
+
+(** a single View request on an empty cache takes 21 steps (the bound is 22) *)
+Example ex_steps_view :
+  csteps html_now true fsW (repeat 0%nat 30) (cinit html_now [CView [] [118]]) = 21%nat /\
+  all_done (crun html_now true fsW (repeat 0%nat 30) (cinit html_now [CView [] [118]])) = true.
+Proof. vm_compute. split; reflexivity. Qed.
+
+(** writer preference matters: thread 0 stands in front of Lock(views), thread 1 holds the read
+    lock, thread 2 is about to RLock: enabled in the plain semantics, refused when thread 0 counts
+    as a waiting writer; thread 1 (the reader, about to leave) is enabled in both. *)
+Example ex_writer_pref :
+  let qsV := [CView [] [118]; CView [] [118]; CView [] [118]] in
+  let s := crun html_now true fsW [0;0;0;1]%nat (cinit html_now qsV) in
+  map next_act (cthr s) = [ALock 2%nat; ANone; ARLock 2%nat] /\
+  map (holdsR 2%nat) (cthr s) = [false; true; false] /\
+  map (fun t => is_some (cstep html_now true fsW s t)) [0;1;2]%nat = [false; true; true] /\
+  map (fun t => is_some (cstep_wp (fun _ => true) html_now true fsW s t)) [0;1;2]%nat = [false; true; false].
+Proof. vm_compute. repeat split; reflexivity. Qed.
